@@ -217,6 +217,8 @@ package ast
 //@   site (*Tasks).Set#0 requires include.Flatten || (task.Task == taskName && task.Namespace == include.Namespace)     [C08]
 //@   site (*Tasks).Set#0 requires include.AdvancedImport ==> varsDone      -- the include's vars reach every copy       [C08,C10]
 //@   site (*Vars).DeepCopy#1 ghost itvDone := true
+//@   site (*OrderedMap).Front#0 requires arg0 == task.IncludedTaskfileVars.om && fresh(task.IncludedTaskfileVars) && fresh(task)   [C18,C09]
+//@   nosite (*OrderedMap).Oldest                                                                                        [C18]
 // ... each of them stamped with the directory of the include (on the task's copy): their sh: commands run there
 //@   site store:Var.Dir#0 requires arg1 == include.Dir                                                                  [C08,C10]
 //@   site (*Tasks).Set#0 requires include.AdvancedImport ==> itvDone       -- and so do the included file's own vars, flattened or not   [C10]
@@ -284,7 +286,9 @@ package ast
 // Exceptions (stated, not proved): the iterators All/Keys/Values hand out lock-free iteration by design (their
 // callers own the map or iterate a Taskfile that is frozen after Setup), and Vars.Merge writes into a map
 // that its caller has just created or copied.
-//@ guarded_by Vars.om Vars.mutex except (*Vars).All (*Vars).Keys (*Vars).Values (*Vars).Merge                       [C18]
+//@ guarded_by Vars.om Vars.mutex except (*Vars).All (*Vars).Keys (*Vars).Values (*Vars).Merge (*Tasks).Merge        [C18]
+// (Tasks.Merge walks, without the lock, the map of ONE Vars: the copy of the included Taskfile's variables it has
+// made a moment ago for the task being added, which nothing else can reach yet - see the clause on Front there)
 //@ guarded_by Tasks.om Tasks.mutex except (*Tasks).All (*Tasks).Keys (*Tasks).Values                                [C18]
 //@ guarded_by Includes.om Includes.mutex except (*Includes).All (*Includes).Keys (*Includes).Values                 [C18]
 
@@ -323,6 +327,14 @@ package ast
 //@   nosite (*Tasks).All            -- the tasks are touched by Tasks.Merge only (which copies), never walked over here  [C06,C08]
 //@   nosite (*Tasks).Values                                                                                             [C06,C08]
 //@   nosite (*Tasks).Get                                                                                                [C06,C08]
+// the settings of the PARENT file (run, method, silent, interval, set, shopt) are the parent's own: merging an include
+// never fills or replaces them (an include's top-level "run: once" would otherwise become the default of root tasks)
+//@   nosite store:Taskfile.Run                                                                                          [C01,C06]
+//@   nosite store:Taskfile.Method                                                                                       [C01,C05]
+//@   nosite store:Taskfile.Silent                                                                                       [C01]
+//@   nosite store:Taskfile.Interval                                                                                     [C01]
+//@   nosite store:Taskfile.Set                                                                                          [C01]
+//@   nosite store:Taskfile.Shopt                                                                                        [C01]
 
 // ---- C08: a ':'-prefixed reference refers to the ROOT Taskfile, at whatever depth the referring file is included:
 // the mark survives every merge unchanged (no namespace is ever put in front of it), and is removed from the
